@@ -44,7 +44,10 @@ def rand_trusted_tree(rng, ids, depth, valid, inside_inline=False):
             return {"k": "meta"}
         if rng.random() < 0.08:
             return {"k": k, "s": ""}  # trusted content may be empty
-        return {"k": k, "s": payload(rng, ids, "h" if k == "html" else "o")}
+        r_ = {"k": k, "s": payload(rng, ids, "h" if k == "html" else "o")}
+        if k == "obj" and rng.random() < 0.3:
+            r_["late"] = True   # its markup changes between being added and being rendered
+        return r_
     if r < 0.45:
         name = rng.choice(["script", "style"])
         n = rng.choice([1, 1, 2, 3])
@@ -97,6 +100,8 @@ def check_tree(ctx, r, indent=0, eol="\n", view="get_html_string"):
 
 def _check_tree(ctx, r, indent, eol, view):
     obj = gen.build(r)
+    if gen.fill_late():
+        ctx.count("objects_changed_after_being_added")
     if view == "str":
         out = str(obj)
     elif view == "render":
@@ -294,6 +299,7 @@ def check_saved(ctx, r, scratch):
         return True
     wit = {"recipe": r, "view": "save_html"}
     obj = gen.build(r)
+    gen.fill_late()
     f = os.path.join(scratch, "c04-%d.html" % ctx.counters["oracle.verbatim_saved"])
     ctx.count("oracle.verbatim_saved")
     try:
